@@ -244,8 +244,9 @@ def gen_layer_cfg(rng, D, equivariant_domain=True, allow_stride=False, group="B"
         cin = rng.permutation([1, 2, 3, 4])[: len(ins)]
         cout = rng.permutation([1, 2, 3, 4])[: len(outs)]
         if equal_channels:  # the common real-world case: every input type c channels, every target type c' channels
-            cin = [int(cin[0])] * len(ins)
-            cout = [int(cout[0])] * len(outs)
+            wide = rng.integers(0, 4) == 0  # sometimes wide (64): code paths gated on the channel count
+            cin = [64 if wide else int(cin[0])] * len(ins)
+            cout = [64 if wide else int(cout[0])] * len(outs)
         in_sig = [[list(t), int(c)] for t, c in zip(ins, cin)]
         out_sig = [[list(t), int(c)] for t, c in zip(outs, cout)]
         ks = list(range(0, 2 * kmax_t + 1))
